@@ -110,6 +110,38 @@ impl Indentation {
 //@end
 }
 
+impl<W> Writer<W> {
+//@extract writer::Writer::new | src/writer.rs :: impl<W> Writer<W> :: fn new | serves=C19
+ pub fn new(inner: W) -> (r: Writer<W>)
+        // C19: the plain writer never indents
+        ensures r.writer == inner, r.indent is None, r.inv()
+ {
+        Writer {
+            writer: inner,
+            indent: None,
+        }
+    }
+//@end
+//@extract writer::Writer::new_with_indent | src/writer.rs :: impl<W> Writer<W> :: fn new_with_indent | serves=C19
+ pub fn new_with_indent(inner: W, indent_char: u8, indent_size: usize) -> (r: Writer<W>)
+        // C19: the indenting writer starts at level 0 with the configured character and width; nothing is due before the first event
+        ensures r.writer == inner, r.inv(),
+            r.indent matches Some(i) && i.indent_char == indent_char && i.indent_size == indent_size && i.current_indent_len == 0 && !i.should_line_break
+ {
+        Writer {
+            writer: inner,
+            indent: Some(Indentation::new(indent_char, indent_size)),
+        }
+    }
+//@end
+//@extract writer::Writer::into_inner | src/writer.rs :: impl<W> Writer<W> :: fn into_inner | serves=C19
+ pub fn into_inner(self) -> (r: W)
+        ensures r == self.writer
+ {
+        self.writer
+    }
+//@end
+}
 impl<W: Write> Writer<W> {
 //@extract writer::Writer::write_bom | src/writer.rs :: impl<W: Write> Writer<W> :: fn write_bom | serves=C08
  pub fn write_bom(&mut self) -> (r: io::Result<()>)
